@@ -187,6 +187,7 @@ def run_history(h, agg):
 
     cps.reset_sandbox()
     cs = env.new_csvpaths()
+    observer = env.new_csvpaths()  # long-lived, only ever reads: stale in-memory state would show here
     model = Model()
     w = {"history": [list(op) for op in h]}
     for i, op in enumerate(h):
@@ -209,11 +210,11 @@ def run_history(h, agg):
             w["exc"] = f"{type(e).__name__}: {str(e)[:200]}"
             return "operation-raises", w
         model.apply(op)
-        for inst in (cs, env.new_csvpaths()):
+        for who, inst in (("same instance", cs), ("fresh instance", env.new_csvpaths()), ("long-lived reader instance", observer)):
             agg.count("store_checks")
             pr = check_store(inst, model, None, w)
             if pr:
-                w["seen_by"] = "same instance" if inst is cs else "fresh instance"
+                w["seen_by"] = who
                 return pr, w
     return None, None
 
